@@ -8,7 +8,7 @@ use crate::fw::*;
 use crate::indep::*;
 use crate::scn::*;
 use crate::sim::*;
-use mdns_sd::{DaemonStatus, Error, Receiver, ServiceDaemon};
+use mdns_sd::{DaemonStatus, Error, IfKind, Receiver, ServiceDaemon};
 use std::time::Duration;
 
 #[derive(Clone, Copy, Debug, PartialEq)]
@@ -139,6 +139,37 @@ fn issue(w: &mut World, h: &ServiceDaemon, c: Cmd) -> Issued {
         }
     }
     is
+}
+
+/// Every public call of the handle (status and shutdown are judged by the caller) with valid
+/// arguments: `None` where it failed with `Error::DaemonShutdown`, otherwise what it did instead.
+fn every_call(h: &ServiceDaemon) -> Vec<(&'static str, Option<String>)> {
+    fn j<T>(r: Result<T, Error>) -> Option<String> {
+        match r {
+            Err(Error::DaemonShutdown) => None,
+            Err(e) => Some(format!("Err({e:?})")),
+            Ok(_) => Some("Ok".into()),
+        }
+    }
+    vec![
+        ("browse_cache", j(h.browse_cache("_late._udp.local."))),
+        ("stop_browse", j(h.stop_browse("_late._udp.local."))),
+        ("resolve_hostname", j(h.resolve_hostname("late.local.", Some(1000)))),
+        ("stop_resolve_hostname", j(h.stop_resolve_hostname("late.local."))),
+        ("register", j(h.register(svc("_late._udp.local.", "late", "latehost.local.", "10.0.0.5", 80, &[])))),
+        ("unregister", j(h.unregister("late._late._udp.local."))),
+        ("monitor", j(h.monitor())),
+        ("get_metrics", j(h.get_metrics())),
+        ("set_service_name_len_max", j(h.set_service_name_len_max(30))),
+        ("set_ip_check_interval", j(h.set_ip_check_interval(3))),
+        ("get_ip_check_interval", j(h.get_ip_check_interval())),
+        ("enable_interface", j(h.enable_interface(IfKind::All))),
+        ("disable_interface", j(h.disable_interface(IfKind::IPv6))),
+        ("accept_unsolicited", j(h.accept_unsolicited(true))),
+        ("set_multicast_loop_v4", j(h.set_multicast_loop_v4(true))),
+        ("set_multicast_loop_v6", j(h.set_multicast_loop_v6(true))),
+        ("verify", j(h.verify("late._late._udp.local.".to_string(), Duration::from_secs(1)))),
+    ]
 }
 
 /// Steps the daemon until the helper thread of a blocking call has returned (bounded).
@@ -363,6 +394,13 @@ fn run_case_pre(cmds: &[Cmd], pos: usize, batch_mask: u64, window: u64, extra: C
         let r = hd.shutdown();
         if !matches!(r, Err(Error::DaemonShutdown)) {
             res.viols.push(viol("C14|second-shutdown-does-not-fail-with-DaemonShutdown", format!("{ctx}: {:?}", r.map(|_| "Ok"))));
+        }
+        // ... every other call of the API too, with exactly that error
+        for (name, r) in every_call(hd) {
+            res.count("calls_after_the_end_checked", 1);
+            if let Some(other) = r {
+                res.viols.push(viol(format!("C14|call-after-shutdown-does-not-fail-with-DaemonShutdown|{name}"), format!("{ctx}: {label} handle {name} -> {other}")));
+            }
         }
     }
     // calls made in windows 2 and 3 must fail with DaemonShutdown (or status yields Shutdown)
